@@ -95,6 +95,27 @@ CLAIMED = {
         'A1-name conversion in the harness. Whole-row/column operands are not '
         'enumerated here (sampled in C04).',
         'DESIGN.md 4/C06'),
+    'C07': (
+        'TLC model checking of Workbook.tla with supplied inputs (Sem(W, ov), '
+        'every schedule, NoFireOverridden) and of Lifecycle.tla (histories) + '
+        'replay of TLC-generated histories on real models + TLC trace '
+        'validation (CalcTrace.tla) of each recorded calculation',
+        'For seeded workbooks and three override sets each (constants, formula '
+        'cells, unpopulated cells of referenced ranges, whole ranges, values '
+        'supplied through defined names) TLC checks every schedule from '
+        'Base(W, ov): overridden cells keep the supplied value and never '
+        'fire, everything else equals the history-free meaning. Lifecycle.tla '
+        'is checked exhaustively to length 3 and sampled by simulation to '
+        'length 8 (calculate with/without overrides and output selection, '
+        'compile, compiled call, to_dict, write); each sampled history is '
+        'replayed on one real model (dict- and file-built) and after every '
+        'calculate() every (requested) cell must equal Sem(W, ov) whatever '
+        'came before. Each recorded calculation (hook H4) must be a Calc '
+        'behaviour starting from Base(W, ov) (CalcTrace.tla).',
+        'Trusted: TLC; the generator and the concretisation of override sets; '
+        'Lifecycle.tla is a history generator with read/write sets taken from '
+        'reading the code, not a proof about the code.',
+        'DESIGN.md 4/C07'),
     'C18': (
         'TLC model checking of ShuntingYard.tla/Grammar.tla (every token '
         'sequence ends acc or rej; acc only if the grammar accepts) and '
